@@ -377,6 +377,11 @@ func (l *Lexer) readString() (string, int, int, int) {
 		endChar = l.prevCharNumber
 		endUtf8Char = l.prevUtf8CharNumber
 		l.skipWhitespace()
+		// Comments between the parts of a multi-part string are layout, like whitespace.
+		for l.ch == '#' || (l.ch == '/' && l.peekChar() == '/') {
+			l.skipToNextLine()
+			l.skipWhitespace()
+		}
 	}
 	return sb.String(), endLine, endChar, endUtf8Char
 }
